@@ -47,7 +47,7 @@ type mResult struct {
 }
 
 func concrete(p string) string {
-	return strings.ReplaceAll(strings.ReplaceAll(p, "{id}", "7"), "{v}", "vv")
+	return strings.ReplaceAll(strings.ReplaceAll(strings.ReplaceAll(p, "{id}", "7"), "{v}", "vv"), "[.html]", ".html")
 }
 
 func modelProgram(prog []refmodel.Stmt, strict bool) *mResult {
@@ -101,6 +101,10 @@ func modelProgram(prog []refmodel.Stmt, strict bool) *mResult {
 				own := fmt.Sprintf("/r%d", rn)
 				if s.Via == "slash" {
 					own += "/"
+				}
+				if s.Via == "opt" {
+					// an optional literal tail and no variable: "/rN[.html]" (asked with the tail)
+					own += "[.html]"
 				}
 				if s.Via == "dyn" {
 					// the variable comes right behind the group prefix: all such routes of a group share their literal head
@@ -266,6 +270,9 @@ func execProgram(prog []refmodel.Stmt, sentinel, strict bool, more ...func(*rux.
 					if s.Via == "slash" {
 						path += "/"
 					}
+					if s.Via == "opt" {
+						path += "[.html]"
+					}
 					if s.Via == "dyn" {
 						path = "/{id}" + path
 					}
@@ -345,7 +352,7 @@ func progString(prog []refmodel.Stmt) string {
 				w(s.Body)
 				sb.WriteString("}")
 			case "route":
-				fmt.Fprintf(&sb, "Route%s(mw=%d,laterUse=%d)", map[string]string{"": "", "any": ":Any", "attach": ":NewRoute+Use+AttachTo", "echo": ":own-path-repeats-the-group-prefix", "slash": ":path-ends-in-a-slash", "dup": ":registered-a-second-time-for-the-same-method-and-path", "dyn": ":path-begins-with-a-variable", "hyphen": ":/api-keys/{id}/..."}[s.Via], s.K, s.K2)
+				fmt.Fprintf(&sb, "Route%s(mw=%d,laterUse=%d)", map[string]string{"": "", "any": ":Any", "attach": ":NewRoute+Use+AttachTo", "echo": ":own-path-repeats-the-group-prefix", "slash": ":path-ends-in-a-slash", "dup": ":registered-a-second-time-for-the-same-method-and-path", "dyn": ":path-begins-with-a-variable", "hyphen": ":/api-keys/{id}/...", "opt": ":optional-literal-tail-without-variable"}[s.Via], s.K, s.K2)
 			case "controller", "resource":
 				fmt.Fprintf(&sb, "%s(%q,mw=%d)", s.Kind, s.Prefix, s.K)
 			default:
@@ -768,6 +775,14 @@ func progSpecials() [][]refmodel.Stmt {
 		[]refmodel.Stmt{g("/g", 1, anyR)},
 		[]refmodel.Stmt{use, g("/g", 2, anyR, g("/h", 0, use, anyR)), anyR},
 		[]refmodel.Stmt{g("/{v}", 1, anyR, route)},
+	)
+	// routes with an optional literal tail and no variable, under prefixes of one, two and three literal segments
+	opt := refmodel.Stmt{Kind: "route", K: 0, Via: "opt"}
+	opt1 := refmodel.Stmt{Kind: "route", K: 1, K2: 1, Via: "opt"}
+	out = append(out,
+		[]refmodel.Stmt{opt, g("/api", 0, opt, g("/v1", 0, opt1, route)), opt},
+		[]refmodel.Stmt{g("/api/v1", 1, opt, route), g("/api", 0, opt), opt1},
+		[]refmodel.Stmt{g("/a", 0, g("/b", 0, g("/c", 1, opt, opt1))), g("/a/b", 0, opt)},
 	)
 	hy := refmodel.Stmt{Kind: "route", K: 0, Via: "hyphen"}
 	out = append(out,
